@@ -1,4 +1,4 @@
-\* The code as written (with the private dispatch table seeded from copyreg's: repo commit 4b3bc0a).  Strict invariants where the code satisfies the property on every shape,
+\* The code as written (private dispatch table built from copyreg's: repo commit 4b3bc0a; keyword-only __getnewargs_ex__ accepted: 35e075b).  Strict invariants where the code satisfies the property on every shape,
 \* AsIs_* (weakened by exactly the shapes of known_findings.d/rpickle.json) where it does not.
 \* CaseDump prints every terminal state as a case for the replay on the real code.
 INIT MCInit
@@ -7,7 +7,7 @@ CONSTANTS
   Algo = "asis"
   SeedCopyreg = "live"
   InitGuard = FALSE
-  KwOnlyOK = FALSE
+  KwOnlyOK = TRUE
   SharedCtx = FALSE
   CtxCopy = TRUE
   Scns = {}
@@ -18,7 +18,7 @@ INVARIANT Inv_C13_InconsistentRejected
 INVARIANT AsIs_C13_NonOptInEqualsPickle
 INVARIANT AsIs_C13_RemoteFalseIsStd
 INVARIANT Inv_C13_SamePath
-INVARIANT AsIs_C14_Once
+INVARIANT Inv_C14_Once
 INVARIANT Inv_C14_Shape
 INVARIANT Inv_C14_ViaSetstate
 INVARIANT AsIs_C14_LoadsSucceeds
